@@ -381,9 +381,9 @@ pub fn run_frame_level(ctx: Ctx) -> Report {
 pub fn meta() -> CheckMeta {
     CheckMeta {
         level: "exploration",
-        rule: "frame level, virtual time, both roles: a real client or server Session (with open streams and readers) is fed by a raw peer with (i) uniform random bytes, (ii) valid traffic mutated by bit flips / truncation / frame duplication / frame reordering / length-field corruption / command-or-id corruption, (iii) Settings, ServerSettings and UpdatePaddingScheme payloads from a string-map and scheme fuzzer (invalid UTF-8, huge and negative numbers, thousands of keys, sizes >= 2^31, non-ASCII digits) followed by valid traffic, (iv) bursts from the command x id x length cross product incl. role-illegal frames, (v) the single-frame grid command byte x {0,1,2,9,2^32-1} x {0,1,100,65535}; 3 fragmentation classes. After the input the owner keeps using the session (writes, open) and then the hostile peer closes. Oracle: no panic anywhere (process-wide hook), owner calls return within 120 virtual seconds, the victim's own output still parses as frames, the session is closed and NO task is alive 150 virtual seconds after the peer left, and an unrelated sibling session pair in the same runtime then moves 900 tagged bytes correctly; a case that burns CPU without finishing is reported by the watchdog as a spin. Loopback part: hostile destination headers / datagram streams into the real TcpProxyHandler and UDP handler, hostile bytes into the real SOCKS5 and HTTP listeners. distinct_nontrivial = distinct (class, role, leading input bytes).".into(),
+        rule: "frame level, virtual time, both roles: a real client or server Session (with open streams and readers) is fed by a raw peer with (i) uniform random bytes, (ii) valid traffic mutated by bit flips / truncation / frame duplication / frame reordering / length-field corruption / command-or-id corruption, (iii) Settings, ServerSettings and UpdatePaddingScheme payloads from a string-map and scheme fuzzer (invalid UTF-8, huge and negative numbers, thousands of keys, sizes >= 2^31, non-ASCII digits) followed by valid traffic, (iv) bursts from the command x id x length cross product incl. role-illegal frames, (v) the single-frame grid command byte x {0,1,2,9,2^32-1} x {0,1,100,65535}; 3 fragmentation classes. After the input the owner keeps using the session (writes, open) and then the hostile peer closes. Oracle: no panic anywhere (process-wide hook), owner calls return within 120 virtual seconds, the victim's own output still parses as frames, the session is closed and NO task is alive 150 virtual seconds after the peer left, and an unrelated sibling session pair in the same runtime then moves 900 tagged bytes correctly; a case that burns CPU without finishing is reported by the watchdog as a spin. Loopback part: hostile destination headers / datagram streams into the real TcpProxyHandler and UDP handler, hostile bytes into the real SOCKS5 and HTTP listeners. distinct_nontrivial = distinct (class, role, leading input bytes). Failing destinations: well-formed domain destinations of every length made of 1-, 2-, 3- and 4-byte characters, unresolvable or resolving to a closed port, into the real TcpProxyHandler: each open must be answered by a refusal, the handler must end, and nothing may panic while the refusal is composed.".into(),
         assumptions: vec!["'blocks beyond the documented timeouts' is decided as: still pending after 120 virtual seconds".into(), "alert frames legitimately end the session".into()],
-        floors: vec![("hostile_inputs", 3000), ("class_uniform_random", 300), ("class_settings_or_scheme_fuzz", 300), ("class_command_id_length_cross_product", 300), ("grid_frames", 500), ("hostile_handler_inputs", 100), ("hostile_listener_inputs", 200)],
+        floors: vec![("hostile_inputs", 3000), ("class_uniform_random", 300), ("class_settings_or_scheme_fuzz", 300), ("class_command_id_length_cross_product", 300), ("grid_frames", 500), ("hostile_handler_inputs", 100), ("hostile_listener_inputs", 200), ("failing_destinations_refused", 200)],
         exhaustive: false,
     }
 }
@@ -408,6 +408,7 @@ pub fn run_loopback(ctx: Ctx) -> Report {
         };
         let _ = netkit::use_fake_dns(&dns).await;
         let mut rng = Rng::new(seed ^ 0xB20);
+        let mut panics_reported = run::panic_log().len();
         // ---- (b) handlers on a MemPipe server session
         let n_b = if quick { 150 } else { 4000 };
         for i in 0..n_b {
@@ -462,6 +463,88 @@ pub fn run_loopback(ctx: Ctx) -> Report {
                 rep.violate("robustness", if udp { "udp_handler" } else { "tcp_handler" }, "handler_wedged", format!("the stream handler is still running 20 s after its stream ended; input {}", hex(&bytes[..bytes.len().min(60)])), json!({"kind": "c20-handler", "udp": udp, "bytes_hex": hex(&bytes)}));
             }
             let _ = tokio::time::timeout(Duration::from_secs(2), rv.server.close()).await;
+        }
+        // ---- (b2) well-formed destinations on which every failure path of the TCP handler runs: names of every length
+        // made of 1-, 2-, 3- and 4-byte characters, unresolvable (the fake DNS answers NXDOMAIN for "nx...") or
+        // resolvable to a closed port; the peer is entitled to a refusal, the handler must survive composing it
+        {
+            let closed_port = crate::netkit::free_port();
+            let mut n_done = 0u64;
+            for ch in ["a", "\u{e9}", "\u{20ac}", "\u{1f600}"] {
+                let max_n = (255 - 7) / ch.len();
+                let step = if quick { 3 } else { 1 };
+                for n in (1..=max_n).step_by(step) {
+                    for unresolvable in [true, false] {
+                        let name = if unresolvable { format!("nx{}.test", ch.repeat(n)) } else { format!("{}.c20.test", ch.repeat(n)) };
+                        if name.len() > 255 {
+                            continue;
+                        }
+                        let mut rv = engine::raw_vs_server(PipeCfg::plain(), PipeCfg::plain(), engine::no_padding());
+                        let _ = rv.peer.send(refcodec::SETTINGS, 0, &engine::settings_payload("x")).await;
+                        let _ = rv.peer.send(refcodec::SYN, 1, &[]).await;
+                        let Some(st) = tokio::time::timeout(Duration::from_secs(5), rv.new_streams.recv()).await.ok().flatten() else { continue };
+                        let session = rv.server.clone();
+                        let handler = tokio::spawn(async move {
+                            let _ = TcpProxyHandler::new().handle_stream(st, session).await;
+                        });
+                        let _ = rv.peer.send(refcodec::PSH, 1, &SocksDest::Name(name.clone(), if unresolvable { 80 } else { closed_port }).encode()).await;
+                        // the refusal must arrive: an error SYNACK for the stream (no point in waiting once the handler is gone)
+                        let mut handler = handler;
+                        let wait_answer = async {
+                            loop {
+                                match rv.peer.recv().await {
+                                    Some(f) if f.cmd == refcodec::SYNACK && f.sid == 1 => return !f.data.is_empty(),
+                                    Some(_) => {}
+                                    None => return false,
+                                }
+                            }
+                        };
+                        let mut handler_done = false;
+                        let answered = tokio::select! {
+                            a = tokio::time::timeout(Duration::from_secs(15), wait_answer) => a.unwrap_or(false),
+                            _ = &mut handler => {
+                                handler_done = true;
+                                false
+                            }
+                        };
+                        let answered = if handler_done {
+                            // the handler ended first: whatever it sent is already on its way
+                            tokio::time::timeout(Duration::from_millis(200), async {
+                                loop {
+                                    match rv.peer.recv().await {
+                                        Some(f) if f.cmd == refcodec::SYNACK && f.sid == 1 => return !f.data.is_empty(),
+                                        Some(_) => {}
+                                        None => return false,
+                                    }
+                                }
+                            })
+                            .await
+                            .unwrap_or(false)
+                        } else {
+                            answered
+                        };
+                        let _ = rv.peer.send(refcodec::FIN, 1, &[]).await;
+                        let done = handler_done || tokio::time::timeout(Duration::from_secs(20), &mut handler).await.is_ok();
+                        n_done += 1;
+                        rep.case(Some(hash_str(&format!("failing-destination:{}:{n}:{unresolvable}", ch.len()))));
+                        let case = json!({"kind": "c20-failing-destination", "char_bytes": ch.len(), "chars": n, "name_bytes": name.len(), "unresolvable": unresolvable});
+                        if !answered {
+                            rep.violate("robustness", "tcp_handler+failing_destination", "open_never_answered", format!("destination name of {} bytes ({n} characters of {} bytes each, {}): the handler never sent the refusal for the open", name.len(), ch.len(), if unresolvable { "unresolvable" } else { "closed port" }), case.clone());
+                        }
+                        if !done {
+                            rep.violate("robustness", "tcp_handler+failing_destination", "handler_wedged", format!("the stream handler is still running 20 s after its stream ended (destination name of {} bytes)", name.len()), case.clone());
+                        }
+                        for p in run::panic_log().into_iter().skip(panics_reported) {
+                            panics_reported += 1;
+                            if !run::is_harness_panic(&p) {
+                                rep.violate("robustness", "tcp_handler+failing_destination", "panic", format!("{p} — while refusing an open for a destination name of {} bytes ({n} characters of {} bytes each)", name.len(), ch.len()), case.clone());
+                            }
+                        }
+                        let _ = tokio::time::timeout(Duration::from_secs(2), rv.server.close()).await;
+                    }
+                }
+            }
+            rep.add("failing_destinations_refused", n_done);
         }
         // ---- (c) listeners
         let Some((server_addr, _sh)) = netkit::start_server(netkit::PASSWORD, engine::default_padding()).await else {
